@@ -1,5 +1,7 @@
 import ModVerif.AuditCmd
 import ModVerif.Props.C04
 import ModVerif.Tie.Semver
+import ModVerif.Tie.FnSemver
 #audit_module ModVerif.Props.C04
 #audit_module ModVerif.Tie.Semver
+#audit_module ModVerif.Tie.FnSemver
